@@ -570,21 +570,6 @@ theorem wrapL_args (X : Ext) (eqOn : Bool) : ∀ (es : List Expr), chainsOkL es 
 end
 
 /-! ### `Malt.Sem` expressions: no hypothesis at all -/
-mutual
-def ofSem : Malt.Sem.Expr → Expr
-  | .const v => .const v
-  | .var x => .var x
-  | .not e => .not (ofSem e)
-  | .and a b => .and (ofSem a) (ofSem b)
-  | .or a b => .or (ofSem a) (ofSem b)
-  | .ite c t e => .ite (ofSem c) (ofSem t) (ofSem e)
-  | .bin op a b => .bin op (ofSem a) (ofSem b)
-  | .call f args => .call f (ofSemL args)
-def ofSemL : List Malt.Sem.Expr → List Expr
-  | [] => []
-  | e :: es => ofSem e :: ofSemL es
-end
-
 theorem plain_ofSem (e : Malt.Sem.Expr) : plain (ofSem e) = true := by
   cases e <;> simp [ofSem, plain]
 
